@@ -351,3 +351,19 @@ Proof.
   split; [right; exists T_IDNA_URL_GLYPHLESS, T_IDNA_URL_LIST; reflexivity|].
   vm_compute. repeat split; reflexivity.
 Qed.
+
+(* the same for the deny lists the API can build *)
+Theorem c10_an A cfg d deny hy dns : AN d -> valid_deny deny ->
+  exists b, to_ascii A cfg d deny hy dns =
+    if forallb (lab_acc deny hy) (split_on DOT d)
+       && (dns_is_ignore dns || verify_dns_length (map to_lower d) (dns_is_root dns))
+    then Ok (b, map to_lower d) else Err.
+Proof. intros Han Hv. destruct (valid_deny_facts deny Hv) as [HU HL]. exact (to_ascii_an A cfg d deny hy dns Han HU HL). Qed.
+Theorem c10_idem_an A cfg d deny hy dns b r : AN d -> valid_deny deny ->
+  to_ascii A cfg d deny hy dns = Ok (b, r) ->
+  r = map to_lower d /\ AN r /\ exists b', to_ascii A cfg r deny hy dns = Ok (b', r).
+Proof. intros Han Hv. destruct (valid_deny_facts deny Hv) as [HU HL]. exact (to_ascii_an_idem A cfg d deny hy dns b r Han HU HL). Qed.
+Theorem c10_case_an A cfg d d' deny hy dns b r : AN d -> valid_deny deny ->
+  ascii_case_variant d d' -> to_ascii A cfg d deny hy dns = Ok (b, r) ->
+  AN d' /\ exists b', to_ascii A cfg d' deny hy dns = Ok (b', r).
+Proof. intros Han Hv. destruct (valid_deny_facts deny Hv) as [HU HL]. exact (to_ascii_an_case A cfg d d' deny hy dns b r Han HU HL). Qed.
